@@ -46,6 +46,12 @@ CHECKS = {
     'C13': ('fault_enumeration', 'runtime monitoring under a virtual clock: retransmission / DPD / lifetime / give-up monitors fed with every real main_loop iteration, over every subset of lost transmissions, tick sequences and a partition injected after every micro-step',
             'Every request kind on both roles x all 16 subsets of lost transmissions x four tick sequences; the same after COOKIE / INVALID_KE_PAYLOAD retries; a partition after every micro-step of ten scripted histories (both sides must empty their SAD within dpd + 20 s + 3 ticks); idle pairs run to twice the lifetime; a peer answering every rekey with TEMPORARY_FAILURE. Monitors: byte-identical retransmissions, never before the deadline, non-decreasing gaps, budget respected and used, nothing re-sent after its response, nothing waiting > 45 s, SAD == tracked set at every step, DPD probe timing, rekey start window, DELETE 30 s after a rekey that keeps failing.',
             'virtual time; deadlines read from the IKE_SA between iterations; one tick = one loop iteration per endpoint', '2/C13'),
+    'C14': ('exploration', 'runtime differential monitoring of every netlink request against a C decoder / encoder compiled from the installed kernel UAPI headers (ASan+UBSan build in the thorough tier), plus a bounds hook on the one raw memmove',
+            'The bytes the real send_recv hands to the socket for generated create_sa / create_policy / delete_sa / flush arguments (all families incl. mixed selector/tunnel families, prefix lengths, ports, protocols, algorithms, key sizes, lifetimes, SPIs, indices, directions) are decoded with the kernel structs and NLMSG/RTA macros and every field is compared with the argument; the python decoder the fake kernel uses is cross-checked on the same bytes; ACQUIRE / EXPIRE / ack / error messages encoded the kernel\'s way from random values (also truncated, over-long, with foreign port ids) must parse to the same values, errors must raise, acks succeed.',
+            'x86-64 ABI of the installed headers; gcc/clang and sanitizer runtime trusted', '2/C14'),
+    'C15': ('fault_enumeration', 'runtime monitoring of the model SPD/SAD built from the real netlink bytes after controller start / stop / restart at every micro-step, and of the offers that follow kernel-encoded ACQUIREs (opened by the wire shadow)',
+            'Hundreds of random valid configurations are loaded on a fake kernel that holds stale state: flush first, SAD empty, SPD exactly the out/in/fwd triple per protect entry with the right index, selectors, templates, protocol and mode; empty again after close(). A scripted history is cut after every micro-step on either endpoint and the controller rebuilt on the same kernel. ACQUIREs at the corners of every entry (incl. IPv6 networks in an IPv4 tunnel) must go to the connection\'s peer, re-use the established IKE_SA, and offer the entry\'s proposal / mode with TSi/TSr containing the acquire and the entry and lying inside the entry; unknown indices are ignored without leaving state.',
+            'fake kernel SPD keyed by (selector, direction) with EEXIST like Linux', '2/C15'),
     'C16': ('exploration', 'runtime monitoring: table-exactness, routing, status-query and EXPIRE-owner monitors after every real main_loop iteration',
             'Table invariants (no duplicate, no DELETED entry, nothing returns, successor exactly once) and routing (owner of the header SPI selected by the I flag; fresh responder per IKE_SA_INIT request; unknown SPI has no effect) are evaluated after every step of exhaustive <=1-duplicate and sampled <=3-duplicate schedules of rekey/delete exchanges, hub histories with several concurrent IKE_SAs and simultaneous initiations, a forged-header SPI x flag x exchange matrix, status queries and EXPIRE notices incl. a peer-chosen SPI collision.',
             'fake kernel/network; forged datagrams are unauthenticated (routing observed, not acceptance); SPI collision forced through the peer\'s os.urandom', '2/C16'),
@@ -86,13 +92,13 @@ def main():
                 'technique': tech,
             })
         else:
-            na.append({'property_id': pid, 'reason': 'check not implemented yet (build in progress, see DESIGN.md section 2)'})
+            na.append({'property_id': pid, 'reason': 'check not implemented (see DESIGN.md section 2)'})
     m = {
         'version': 1,
         'setup_cmd': './setup.sh',
         'hooks': {
             'guard': 'PYIKEV2_VERIF',
-            'enable': 'no source hooks: every observation point is patched in from the harness (module attributes, class wrappers, sys.monitoring); the guard name is reserved and unused',
+            'enable': 'no source hooks: every observation point is patched in from the harness (module attributes, class wrappers, sys.monitoring); the guard name is reserved and unused. The /repo commits are all unguarded fix: commits (see known_findings.json)',
             'baseline_off_cmd': 'cd /repo && /venv/bin/python -m pytest -ra -q -p no:cacheprovider --timeout=900 --continue-on-collection-errors',
             'source_commits': [],
             'add_only': True,
